@@ -192,6 +192,7 @@ def gen(rng, idx, tier):
     all_tags = _tags(list(scripts) + kscripts)
     kerned_tags = _tags(kscripts)
     r = rng.random()
+    given_order = False
     if r < 0.70:
         stratum = "default"
         layout = rng.choice(["all", "all", "kerned"])
@@ -203,6 +204,13 @@ def gen(rng, idx, tier):
                     lsys.append((t, l))
             if rng.random() < 0.2:
                 lsys.append(("DFLT", "ZZZ"))
+            if rng.random() < 0.4:
+                # statement order is the user's: a script's named language may be declared
+                # before that script's dflt (only 'DFLT dflt' has to come first)
+                rest = lsys[1:]
+                rng.shuffle(rest)
+                lsys = lsys[:1] + rest
+                given_order = True
         if rng.random() < 0.15:
             lsys.append(("thai", "dflt"))          # declared, but nothing in the font
     else:
@@ -217,7 +225,7 @@ def gen(rng, idx, tier):
         else:
             drop = set(rng.sample(kerned_tags, rng.randint(1, max(1, len(kerned_tags) - 1))))
             lsys = [("DFLT", "dflt")] + [(t, "dflt") for t in all_tags if t not in drop]
-    text, rules = S.gsub_alternates(rng, desc, lsys)
+    text, rules = S.gsub_alternates(rng, desc, lsys, given_order=given_order)
     return {
         "stratum": stratum,
         "layout": layout,
